@@ -210,6 +210,15 @@ func vStartAgent(o vAgentOpts) (*vAgent, error) {
 			return a, errors.New("datapath did not become connected")
 		}
 	}
+	// the REST endpoint is served from a goroutine: wait until it accepts connections
+	vWaitUntil(5*time.Second, func() bool {
+		c, err := net.DialTimeout("tcp", a.http, 200*time.Millisecond)
+		if err != nil {
+			return false
+		}
+		c.Close()
+		return true
+	})
 	return a, nil
 }
 
